@@ -2,6 +2,7 @@ import Arp.Model.Proto
 import Arp.Model.Trans
 import Arp.Model.Str
 import Arp.Model.Limbs
+import Arp.Model.Misc
 /-!
 # `arpdrv` — line protocol driver
 
@@ -230,6 +231,19 @@ def runProgCmp (inss : List String) : String :=
 
 def handle (toks : List String) : String :=
   match toks with
+  | ["misc", "sem", t] =>
+    (match parseSem t with
+     | some F => out s!"{F.display}|{F.rm.name}|{F.decimalAccuracy}" "-" "misc"
+     | none => bad)
+  | ["misc", "prand", parts, seed] =>
+    (match parts.toNat?, seed.toNat? with
+     | some k, some sd =>
+       if sd < 2 ^ 32 then
+         let ws := pseudorandom k sd
+         out s!"{ws.length} {toHex (Limbs.val ws)}" "-" "misc"
+       else bad
+     | _, _ => bad)
+  | ["misc", "default"] => out s!"{Limbs.zero.length} {toHex (Limbs.val Limbs.zero)}" "-" "misc"
   | "prog" :: inss => runProg inss
   | "progcmp" :: inss => runProgCmp inss
   | ["nat64", op, a, b] =>
@@ -343,7 +357,7 @@ def handle (toks : List String) : String :=
      | some F, some bs =>
        (match tryFromStr bs F with
         | .ok x => out ("ok " ++ showFlt x) "-" (if x.isNormal then "n" else "c")
-        | .error _ => out "err" "-" "err")
+        | .error k => out ("err " ++ k.message) "-" "err")
      | _, _ => bad)
   | ["const", name, s] =>
     (match parseSem s with
